@@ -33,5 +33,31 @@ fn main() {
             bad += 1;
         }
     }
+    // history: the directory already holds an older, longer dump
+    let mut older = full.clone();
+    older.extend_from_slice(b"                                ");
+    let long = SetSketchParams::new(1.0010000000000001, 4096, 20.123456789012345, 65534);
+    let short = SetSketchParams::new(1.5, 8, 2.0, 7);
+    for (what, first) in [("older dump padded with blanks", Some(older)), ("older dump of longer parameters", None)] {
+        match first {
+            Some(bytes) => std::fs::write(dir.join("parameters.json"), &bytes).unwrap(),
+            None => long.dump_json(dir).unwrap(),
+        }
+        let _ = short.dump_json(dir);
+        let now = std::fs::read(dir.join("parameters.json")).unwrap_or_default();
+        match std::panic::catch_unwind(|| SetSketchParams::reload_json(dir)) {
+            Ok(Ok(q)) => {
+                let same = format!("{:?}", q) == format!("{:?}", short);
+                if !same {
+                    println!("STALE-DIFFERENT after {}: {:?} file={:?}", what, q, String::from_utf8_lossy(&now));
+                    bad += 1;
+                }
+            }
+            _ => {
+                println!("STALE-TAIL after {}: reload fails, file={:?}", what, String::from_utf8_lossy(&now));
+                bad += 1;
+            }
+        }
+    }
     println!("BAD {}", bad);
 }
